@@ -29,6 +29,7 @@ var (
 	StartHook   func(h any)
 	ExitHook    func(h any, recovered any)
 	PermHook    func(site int32, n int) []int
+	SelectHook  func(site int32, n int) []int
 	BuggifyHook func(name string) bool
 	TapHook     func(kind string, a, b any)
 	StdoutW     io.Writer
@@ -81,6 +82,15 @@ func Recv2[C ~chan E | ~<-chan E, E any](ch C, site int32) (E, bool) {
 	v, ok := <-ch
 	Post(h, site)
 	return v, ok
+}
+
+// SelectOrder tells in which order the cases of a select are polled before the
+// select blocks. Without an engine it is empty: the original select runs alone.
+func SelectOrder(site int32, n int) []int {
+	if h := SelectHook; h != nil {
+		return h(site, n)
+	}
+	return nil
 }
 
 // Spawn is called by the parent immediately before a go statement.
